@@ -34,6 +34,8 @@ def main():
         traceback.print_exc()
         print('MACHINERY-ERROR %s: unexpected exception in harness' % pid)
         rc = 2
+    import shutil
+    shutil.rmtree(ctx.scratch, ignore_errors=True)
     sys.stdout.flush()
     os._exit(rc)
 
